@@ -431,6 +431,20 @@ func (e *Engine) findFunc(ps *PkgSpec, fs *FuncSpec) *ssa.Function {
 	if sp == nil {
 		return nil
 	}
+	if j := strings.Index(fs.Name, "$"); j >= 0 {
+		// T.m$k : the k-th function literal of T.m (go/ssa numbering)
+		var k int
+		if _, err := fmt.Sscanf(fs.Name[j+1:], "%d", &k); err != nil || k < 1 {
+			return nil
+		}
+		base := *fs
+		base.Name = fs.Name[:j]
+		parent := e.findFunc(ps, &base)
+		if parent == nil || k > len(parent.AnonFuncs) {
+			return nil
+		}
+		return parent.AnonFuncs[k-1]
+	}
 	if i := strings.Index(fs.Name, "."); i >= 0 {
 		tname, m := fs.Name[:i], fs.Name[i+1:]
 		tn, ok := sp.Members[tname].(*ssa.Type)
@@ -524,6 +538,17 @@ func (e *Engine) verifyFunc(fn *ssa.Function, spec *FuncSpec) (vc *VC, err error
 	env := &Env{vc: vc, vars: map[string]Term{}, cur: st, old: st, pkg: fn.Pkg}
 	for i, p := range fn.Params {
 		env.vars[p.Name()] = args[i]
+	}
+	// a function literal: each captured variable is a cell (non-nil, allocated before the call) whose current content the
+	// contract names by the variable's name
+	for _, fv := range fn.FreeVars {
+		n := vc.fresh("fv_"+fv.Name(), SInt)
+		vc.emit("(assert (not (= " + n + " 0)))")
+		vc.assumeAllocated(st, fv.Type(), n)
+		fr.vals[fv] = Sym{T: Term{S: n, Sort: SInt, T: fv.Type()}}
+		if t, ok := vc.freeVarValue(fr, st, fv.Name()); ok {
+			env.vars[fv.Name()] = t
+		}
 	}
 	if fn.Signature.Recv() != nil {
 		if _, isPtr := fn.Signature.Recv().Type().Underlying().(*types.Pointer); isPtr {
